@@ -46,6 +46,7 @@ conform_filename.opaque = _OPAQUE
 
 # ------------------------------------------------------------------------------------------- emit.file
 _FILE_OPAQUE = {
+    ".read": {"ret": "str"}, ".write": {"ret": "none", "effect": True},
     "to_code": {"ret": "str"}, "format_str": {"ret": "str"}, "Mode": {"ret": "obj"}, "set": {"ret": "obj"},
     "open": {"ret": ("obj", None), "effect": True}, "path.isfile": {"ret": "bool"}, "Module": {"ret": ("obj", "ast.Module")},
 }
@@ -64,8 +65,14 @@ emit_file = Contract(
         Clause("F-render-first", "log_pos_open[-1] > log_pos_to_code[-1] and (len(log_pos_format_str) == 0 or log_pos_open[-1] > log_pos_format_str[-1])",
                note="C20.D2: the source is fully rendered (and formatted) before the file is opened for writing"),
         Clause("F-open-target", "log_open_args[-1][0] == filename and log_open_args[-1][1] == mode", note="the last open is on the target, in the requested mode"),
-        Clause("F-one-write", "len([c for c in log_order[log_pos_open[-1]:] if c == '<method of opaque object>']) == 1",
-               note="between open and close there is exactly one write"),
+        Clause("F-one-write", "log__write_n == 1 and log_pos__write[0] > log_pos_open[-1]",
+               note="after the last open there is exactly one write (and none before)"),
+        Clause("F-written-text", "log__write_args[0][0] == (log_format_str_results[0] if len(log_pos_format_str) == 1 else log_to_code_results[0])",
+               when=["wt,black", "wt,noblack", "wt,classdef"], note="what is written is the rendered (and, unless skipped, formatted) source - nothing else"),
+        Clause("F-fresh-line", "log__read_n == 0 or log__write_args[0][0] == (('\\n' + log_format_str_results[0]) if (log__read_results[0] != '' and log__read_results[0][-1:] != '\\n') "
+                               "else log_format_str_results[0])", when=["a,black"],
+               note="C11: appended text starts on a line of its own: a newline is put in front exactly when the existing text is non-empty and does not end in one "
+                    "(a file that ends in blanks or tabs still needs it)"),
         Clause("F-black", "(len(log_pos_format_str) == 1) == (not skip_black)", note="black runs iff it was not skipped"),
         Clause("F-wrap", "(log_Module_n == 1) == (not typeis(node, 'Module'))", note="a bare ClassDef / FunctionDef is wrapped into a Module"),
         Clause("F-append-after-format", "len(log_pos_open) == 1 or len(log_pos_format_str) == 0 or log_pos_open[0] > log_pos_format_str[-1]",
